@@ -217,6 +217,10 @@ const C05_DIRECTED: &[(&str, &[(&str, &str)])] = &[
     ("own_item_and_same_package", &[("a", "package t; parcelable P { P self; Q other; t.Q qualified; }"), ("b", "package t; parcelable Q { }")]),
     ("forward", &[("a", "package t; parcelable Fwd; parcelable q.Qual; parcelable P { Fwd a; Qual b; q.Qual c; List<Fwd> d; }")]),
     ("deep_unknown", &[("a", "package t; interface I { Map<String, List<Nope>> f(in List<List<Nope2>> x); }")]),
+    // recovered syntax errors right in front of an unknown type (the offending token IS the type name)
+    ("missing_semicolon_parcelable", &[("a", "package t; parcelable P { int a  Foo b; Bar c  Baz d; }")]),
+    ("missing_semicolon_interface", &[("a", "package t; interface I { void f()  Foo g(); Foo2 h(in Nope n)  Nope2 k(); }")]),
+    ("missing_comma_args", &[("a", "package t; interface I { void f(in Foo a in Bar b, Baz c); Qux g(); }")]),
 ];
 
 /// a reference nested `depth` levels deep (generated, not a constant)
